@@ -168,7 +168,10 @@ class _Simu(_IObserver, _params.Updatable, ABC):
         error = "You must define your own `Get_K_C_M_F` function in your simulation to construct the system matrix, since multiple problem types have been detected. For reference, see the `Get_K_C_M_F` function in `simulations._phasefield`."
         assert len(self.Get_problemTypes()) == 1, error
 
-        if self.needUpdate:
+        # With Lagrange conditions the system carries one extra row per Lagrange condition and per
+        # Dirichlet dof, so adding or clearing conditions changes its size without touching the model
+        # or the mesh: matrices assembled for another size are stale too.
+        if self.needUpdate or self.__K.shape[0] != self.__Get_Ndof(problemType):
             self.__K, self.__C, self.__M, self.__F = self.Assembly(problemType)
             self.Need_Update(False)
 
